@@ -76,7 +76,7 @@ def ranges(run, repo):
     combos += [(pre, off, 4, dl) for pre, off, dl in itertools.product(prefixes[1:], offs[:3], ('-', '.'))]
     for pre, off, digits, delim in combos:
         for mixed in (False, True):
-            I = Interp(repo, max_depth=10)
+            I = Interp(repo)
             D = I.D
             base = D.sym('N')
             ids = []
@@ -158,7 +158,7 @@ def ranges(run, repo):
                               'list form == string form', '[%s] string form %s is not the list form joined'
                               % (label, show(st, 160)), m, fn)
     # short (non zero-padded) suffixes: 'r_5' must not be renamed
-    I = Interp(repo, max_depth=10)
+    I = Interp(repo)
     ids = [make_id(I, [('r', 1)], I.D.sym('N'), o, 1) for o in (5, 6)]
     lst = I.call_function(m, fn, [], {'objs': ListV([i[0] for i in ids]), 'format': 'list'})
     renamed = False
@@ -171,7 +171,7 @@ def ranges(run, repo):
               'identifiers with a one-digit suffix (r_5, r_6) come back four digits wide (r_0005): renamed, not '
               'rejected', m, fn)
     # ids that cannot be encoded are rejected
-    I = Interp(repo, max_depth=10)
+    I = Interp(repo)
     I.sym_strings[Z + 'word'] = (4, 'alpha')
     for label, objs, exc in (('non-string id', ListV([Obj('o', attrs={'id': C(5)})]), 'TypeError'),
                              ('non-integer suffix', ListV([SegStr.lit('r_') + SegStr.field(Z + 'word', 4, 'alpha')]),
@@ -200,7 +200,7 @@ def wrapping(run, repo, thorough):
     if thorough:
         widths_sets += [[w] * k for w in (7, 15, 26) for k in (3, 9, 20)]
     for widths, (line_len, max_len) in itertools.product(widths_sets, limits):
-        I = Interp(repo, max_depth=8)
+        I = Interp(repo)
         toks = []
         for k, w in enumerate(widths):
             key = Z + 'tok%d' % k
